@@ -809,6 +809,19 @@ func (c *Ctx) ioSizesDepth(p *packages.Package, fd *ast.FuncDecl, depth int) (in
 	sizes := types.SizesFor("gc", "amd64")
 	byteLen := func(e ast.Expr) int64 {
 		e = ast.Unparen(e)
+		// a value of fixed size (binary.Write(w, order, count) with count uint32)
+		if t := info.TypeOf(e); t != nil {
+			switch u := t.Underlying().(type) {
+			case *types.Basic:
+				if u.Info()&(types.IsInteger|types.IsFloat) != 0 && u.Kind() != types.Int && u.Kind() != types.Uint && u.Kind() != types.Uintptr && u.Info()&types.IsUntyped == 0 {
+					return sizes.Sizeof(t)
+				}
+			case *types.Array:
+				if _, isCall := e.(*ast.CallExpr); !isCall {
+					return sizes.Sizeof(t)
+				}
+			}
+		}
 		switch x := e.(type) {
 		case *ast.SliceExpr:
 			if at, ok := info.TypeOf(x.X).Underlying().(*types.Array); ok && x.Low == nil && x.High == nil {
@@ -969,9 +982,7 @@ func (c *Ctx) runPLYCursor(rule string) {
 		}
 		c.analysed(qname(fn))
 		key := "fileformats." + s.fn + " consumes rows only below the declared count"
-		// "no rows left" edges: counter >= Count (true) / counter < Count (false)
 		type edge struct{ from, to *ssa.BasicBlock }
-		blocked := map[edge]bool{}
 		isCounter := func(v ssa.Value) bool {
 			u, ok := v.(*ssa.UnOp)
 			if !ok || u.Op != token.MUL {
@@ -988,73 +999,121 @@ func (c *Ctx) runPLYCursor(rule string) {
 			fa, ok := u.X.(*ssa.FieldAddr)
 			return ok && fieldOf(fa) == countF
 		}
-		nTests := 0
-		for _, b := range fn.Blocks {
-			if len(b.Instrs) == 0 {
-				continue
-			}
-			ifi, ok := b.Instrs[len(b.Instrs)-1].(*ssa.If)
-			if !ok || len(b.Succs) != 2 {
-				continue
-			}
-			be, ok := ifi.Cond.(*ssa.BinOp)
-			if !ok || !isCounter(be.X) || !isCount(be.Y) {
-				continue
-			}
-			switch be.Op {
-			case token.LSS: // counter < Count: rows remain on the true edge
-				blocked[edge{b, b.Succs[0]}] = true
-				nTests++
-			case token.GEQ: // counter >= Count: rows remain on the false edge
-				blocked[edge{b, b.Succs[1]}] = true
+		// analyse: with the "rows remain" edges of f removed (tests of the cursor
+		// against the declared count, plus the edges in extra), is a row site
+		// still reachable from the entry?
+		analyse := func(f *ssa.Function, rowCall func(call *ssa.Call) bool, extra map[edge]bool) (nTests int, bad, noRow bool) {
+			blocked := map[edge]bool{}
+			for e := range extra {
+				blocked[e] = true
 				nTests++
 			}
-		}
-		// row sites: the decoding calls (reader) / returns of a non-nil element (writer)
-		var rowBlocks []*ssa.BasicBlock
-		for _, b := range fn.Blocks {
-			for _, ins := range b.Instrs {
-				switch x := ins.(type) {
-				case *ssa.Call:
-					if s.rowCall != nil && s.rowCall(x) {
-						rowBlocks = append(rowBlocks, b)
-					}
-				case *ssa.Return:
-					if s.rowCall == nil && len(x.Results) > 0 && !isNilConst(x.Results[0]) {
-						if _, isCall := x.Results[0].(*ssa.Call); !isCall { // not the recursive advance
-							if _, isEx := x.Results[0].(*ssa.Extract); !isEx {
-								rowBlocks = append(rowBlocks, b)
+			for _, b := range f.Blocks {
+				if len(b.Instrs) == 0 {
+					continue
+				}
+				ifi, ok := b.Instrs[len(b.Instrs)-1].(*ssa.If)
+				if !ok || len(b.Succs) != 2 {
+					continue
+				}
+				be, ok := ifi.Cond.(*ssa.BinOp)
+				if !ok || !isCounter(be.X) || !isCount(be.Y) {
+					continue
+				}
+				switch be.Op {
+				case token.LSS: // counter < Count: rows remain on the true edge
+					blocked[edge{b, b.Succs[0]}] = true
+					nTests++
+				case token.GEQ: // counter >= Count: rows remain on the false edge
+					blocked[edge{b, b.Succs[1]}] = true
+					nTests++
+				}
+			}
+			var rowBlocks []*ssa.BasicBlock
+			for _, b := range f.Blocks {
+				for _, ins := range b.Instrs {
+					switch x := ins.(type) {
+					case *ssa.Call:
+						if rowCall != nil && rowCall(x) {
+							rowBlocks = append(rowBlocks, b)
+						}
+					case *ssa.Return:
+						if rowCall == nil && len(x.Results) > 0 && !isNilConst(x.Results[0]) {
+							if _, isCall := x.Results[0].(*ssa.Call); !isCall { // not the recursive advance
+								if _, isEx := x.Results[0].(*ssa.Extract); !isEx {
+									rowBlocks = append(rowBlocks, b)
+								}
 							}
 						}
 					}
 				}
 			}
-		}
-		if len(rowBlocks) == 0 {
-			c.problem("%s: no row site found", key)
-			continue
-		}
-		// delete the "rows remain" edges: no row site may stay reachable
-		seen := map[*ssa.BasicBlock]bool{}
-		stack := []*ssa.BasicBlock{fn.Blocks[0]}
-		for len(stack) > 0 {
-			b := stack[len(stack)-1]
-			stack = stack[:len(stack)-1]
-			if seen[b] {
-				continue
+			if len(rowBlocks) == 0 {
+				return nTests, false, true
 			}
-			seen[b] = true
-			for _, succ := range b.Succs {
-				if !blocked[edge{b, succ}] {
-					stack = append(stack, succ)
+			seen := map[*ssa.BasicBlock]bool{}
+			stack := []*ssa.BasicBlock{f.Blocks[0]}
+			for len(stack) > 0 {
+				b := stack[len(stack)-1]
+				stack = stack[:len(stack)-1]
+				if seen[b] {
+					continue
+				}
+				seen[b] = true
+				for _, succ := range b.Succs {
+					if !blocked[edge{b, succ}] {
+						stack = append(stack, succ)
+					}
 				}
 			}
-		}
-		bad := false
-		for _, b := range rowBlocks {
-			if seen[b] {
-				bad = true
+			for _, b := range rowBlocks {
+				if seen[b] {
+					bad = true
+				}
 			}
+			return nTests, bad, false
+		}
+		nTests, bad, noRow := analyse(fn, s.rowCall, nil)
+		if nTests == 0 && s.rowCall != nil {
+			// the cursor test may live in a helper that hands out the current
+			// element only where rows remain and nil otherwise: then "result !=
+			// nil" is the rows-remain edge in this function
+			extra := map[edge]bool{}
+			for _, b := range fn.Blocks {
+				if len(b.Instrs) == 0 {
+					continue
+				}
+				ifi, ok := b.Instrs[len(b.Instrs)-1].(*ssa.If)
+				if !ok || len(b.Succs) != 2 {
+					continue
+				}
+				be, ok := ifi.Cond.(*ssa.BinOp)
+				if !ok || (be.Op != token.EQL && be.Op != token.NEQ) || !isNilConst(be.Y) {
+					continue
+				}
+				hc, ok := be.X.(*ssa.Call)
+				if !ok {
+					continue
+				}
+				h := hc.Call.StaticCallee()
+				if h == nil || h.Blocks == nil || h.Pkg != fn.Pkg {
+					continue
+				}
+				if hn, hbad, hnoRow := analyse(h, nil, nil); hn > 0 && !hbad && !hnoRow {
+					if be.Op == token.NEQ {
+						extra[edge{b, b.Succs[0]}] = true
+					} else {
+						extra[edge{b, b.Succs[1]}] = true
+					}
+				}
+			}
+			if len(extra) > 0 {
+				nTests, bad, noRow = analyse(fn, s.rowCall, extra)
+			}
+		}
+		if noRow {
+			c.problem("%s: no row site found", key)
+			continue
 		}
 		switch {
 		case nTests == 0 || bad:
